@@ -296,7 +296,12 @@ class Gen:
             return f"({self.expr('str', d)} + {self.expr('str', d)})"
         if k < 0.75:
             return f"({self.expr('str', d)} * {self.small_int()})"
-        return f"('%s-%s' % ({self.expr('int', d)}, {self.expr('str', d)}))"
+        if self.rng.random() < 0.5:
+            # CPython compiles '...' % (a, b) with a literal format and a tuple display like an f-string (each value is formatted
+            # right after it is evaluated): with side effects on earlier operands that is a compiler artefact, so the plain form
+            # only gets constants
+            return f"('%s-%s' % ({self.const('int')}, {self.const('str')}))"
+        return f"('%s-%s' % ({self.expr('int', d)}, {self.expr('str', d)})[0:2])"
 
     def _str_call(self, d):
         self.nodes.add("Call")
